@@ -7,15 +7,15 @@ import (
 	"strings"
 	"time"
 
+	"verifharness/internal/drv"
+
 	"github.com/DrmagicE/gmqtt"
 	"github.com/DrmagicE/gmqtt/persistence/queue"
 	qmem "github.com/DrmagicE/gmqtt/persistence/queue/mem"
 	"github.com/DrmagicE/gmqtt/pkg/packets"
 )
 
-func init() {
-	components["queue"] = func(args []string) component { return &queueDrv{backend: "mem"} }
-}
+func main() { drv.Main(&queueDrv{backend: "mem"}) }
 
 type recNotifier struct{ evs []string }
 
@@ -86,7 +86,7 @@ func tick() {
 	}
 }
 
-func atoi(s string) int { n, _ := strconv.Atoi(s); return n }
+func atoi(s string) int { return drv.Atoi(s) }
 
 func pidList(s string) []packets.PacketID {
 	if s == "-" {
